@@ -85,6 +85,9 @@ type World struct {
 
 	dbfd *os.File
 	refN int
+	// NoFastRef forces every reference image through SQLite's own recovery (used when litestream runs in another
+	// process that may be killed mid-transaction, leaving committed-looking frames the live wal-index does not list).
+	NoFastRef bool
 	ctr  uint64
 	Obs  Obs
 	ctx  context.Context
@@ -988,9 +991,6 @@ func (w *World) TraceState() string {
 	}
 	s += " replica="
 	for _, f := range ListLTX(w.ReplicaDir) {
-		if f.Level == 0 {
-			continue
-		}
 		s += fmt.Sprintf("L%d:%d-%d ", f.Level, f.Min, f.Max)
 	}
 	s += fmt.Sprintf("L0max=%d", MaxL0(w.ReplicaDir))
